@@ -19,12 +19,12 @@ PROPS = {
     "C02": {
         "module": "Cdecao.Props.C02",
         "theorems": ["Props.C02_node_bound", "Props.C02_node_mono", "Props.C02_cover", "Props.C02_node_none", "Props.C02_feas_in_sol",
-                     "Props.C02_feas_optimal", "Props.C02_wrong_empty", "Props.C02_compose"],
+                     "Props.C02_feas_optimal", "Props.C02_wrong_empty", "Props.C02_compose", "Props.C02_partial", "Props.noFreeableb_sound"],
         "streams": ["solve-norooms", "node-norooms"],
     },
     "C03": {
         "module": "Cdecao.Props.C03",
-        "theorems": ["Props.C03", "Props.C03_bounded_of_spec"],
+        "theorems": ["Props.C03", "Props.C03_bounded_of_spec", "Props.C03_caobab"],
         "streams": ["engine", "solve"],
     },
     "C04": {
@@ -82,12 +82,12 @@ _NODE = "run_bab_node / hungarian_algorithm are modelled by N2.runNodeS / H2.run
 LEVELS = {
     "C01": {"text": "Theorem Props.C01: for every well-formed instance, room list, float behaviour, thread count and schedule the incumbent of the engine model (hence the returned assignment) satisfies HardOK; no hypothesis on matching or tree. Tie to the code: node-by-node and trace-by-trace correspondence plus HardOK evaluated in Lean on every assignment the real code returns.",
             "note": _NODE + " " + _ENG + " InstOK (indices in range, each participant instructs at most one course) is the validity premise."},
-    "C02": {"text": "Full statement is false for the unchanged code (known finding F1, class: a participant with own choices instructs a non-fixed course). In the complement class every clause of the node specification is a theorem (bound, mono, cover, none, feas-in-Sol, feas-optimal, wrong-course => empty) and Props.C02_compose (bab_optimal) turns a NodeSpec into optimality of the finished parallel search for all T and schedules; real runs without rooms are compared with an exact brute-force optimum (<= 4 courses, <= 7 participants); a miss outside the F1 class is a violation.",
-            "note": _NODE + " " + _ENG + " Assembly of the clauses into one NodeSpec instance is in progress; until then C02 is proof of every clause + composition theorem, i.e. partial."},
+    "C02": {"text": "Full statement is false for the unchanged code (known finding F1, class: a participant with own choices instructs a non-fixed course). In the complement class Props.C02_partial is proved end to end: for every valid instance (decidable validb) without room list in which no participant with own choices instructs a non-fixed course (decidable noFreeableb), every T >= 1 and schedule, the finished search reports nothing only if no assignment satisfies the hard constraints, and otherwise an assignment satisfying them whose reported score is its documented score and is maximal. Real runs without rooms are compared with an exact brute-force optimum (<= 4 courses, <= 7 participants); a miss is the known finding only if the instance is in the F1 class AND the model of the unchanged algorithm gives the same answer; anything else is a violation.",
+            "note": _NODE + " " + _ENG + " Partial with respect to the full property: inside the F1 class the property is false of the code (known finding), the theorem covers the complement."},
     "C17": {"text": "Theorem Props.C17_rooms_le_opt: with any room list the reported score is the documented score of an assignment satisfying the hard constraints, hence at most any upper bound of the room-free optimum (all T, schedules). The non-binding half is checked on paired real runs (identical verdict, score and node-by-node identical search trees) and by the brute-force optimum.",
             "note": _NODE + " The theorem `rooms_nonbinding` (identical node results) is not yet proved; that half is correspondence + paired-run oracle only (partial)."},
-    "C03": {"text": "Theorem Props.C03: two finished runs of the engine model on a bounded tree agree on found/score for all thread counts and schedules. For caobab trees the premise Bounded is discharged by NodeSpec only in the class outside finding F1 (assembly pending) and is otherwise checked on every explored tree; real runs under 3-6 seeded schedules x thread counts must agree.",
-            "note": _ENG + " Partial for caobab: `Bounded (runNodeS …)` is a named hypothesis of the theorem."},
+    "C03": {"text": "Theorem Props.C03: two finished runs of the engine model on a bounded tree agree on found/score for all thread counts and schedules. Props.C03_caobab discharges the premise for the caobab node solver (valid instances outside the F1 class, with or without rooms, any float behaviour); inside the F1 class Bounded stays a hypothesis and real runs under 3-6 seeded schedules x thread counts must agree.",
+            "note": _ENG + " Partial only inside the F1 class (instructors with own choices of non-fixed courses), where `Bounded` is not proved."},
     "C04": {"text": "Theorems Props.C04_no_deadlock, C04_done_means_finished, C04_stats_step, C04_bounded_work over the engine model, all T >= 1 and schedules incl. spurious wake-ups; every real run under the shim is replayed through the model with all six counters compared, and the shim's deadlock detector and step budget watch the real code.",
             "note": _ENG},
     "C06": {"text": "Theorem Props.C06: under a room list the incumbent's effective sizes, sorted descending, fit the descending room list rank by rank, for every eff function (no float reasoning), every T and schedule. RoomOK is also evaluated in Lean (native Float32) on every assignment the real code returns with rooms.",
